@@ -32,6 +32,7 @@ def run(ck, ctx):
         _r101(ck, prog, cfg)
         _r103(ck, prog, cfg)
         _r104(ck, prog, cfg)
+        file_loop_rule(ck, prog, cfg, "R10.3")
         r106(ck, prog, cfg, "R10.6")
 
 
@@ -391,3 +392,36 @@ def r106(ck, prog, cfg, rid):
                      "that was appended, fsynced and acknowledged ends recovery of its file" % why, fn.where(ln),
                      detail="None exit guarded by length/overflow/CRC test")
     ck.floor(rid + _tag(cfg), n, 4)
+
+
+def file_loop_rule(ck, prog, cfg, rid):
+    """every WAL file is visited: the per-file loop of recover_all_entries ends only when the list is exhausted (no `break`, no
+    `return` out of the loop body other than the propagation of list() errors before it) - a torn or odd file must not end the
+    replay of the files behind it"""
+    rec = prog.one(W + "WalRotator::<S>::recover_all_entries")
+    heads = lib2.loop_heads(rec)
+    opens = [b for b, t in rec.calls() if is_callee(t, r"WalStore>::open_read$")]
+    ck.check(len(opens) >= 1, rid, "recover_all_entries:per-file-loop" + _tag(cfg), "open_read call not found in recover_all_entries", rec.where())
+    for ob in opens[:1]:
+        mine = [h for h, (none_t, some_t, nb) in heads.items() if ob == some_t or ob in rec.reach([some_t], avoid=[h])]
+        if not mine:
+            ck.bad(rid, "recover_all_entries:per-file-loop" + _tag(cfg), "open_read is not inside a loop over the WAL files", rec.where())
+            continue
+        h = min(mine, key=lambda h: len(rec.reach([heads[h][1]], avoid=[h])))
+        none_t, some_t, nb = heads[h]
+        body = {some_t} | rec.reach([some_t], avoid=[h])
+        after = {none_t} | rec.reach([none_t], avoid=[h])
+        # an edge from the body to the code after the loop that does not go through the loop head = break / early return
+        leaks = []
+        for x in sorted(body - {h}):
+            if x in after and x not in body - after:
+                pass
+            for sx in rec.succ(x):
+                if sx not in body and sx != h and sx != nb:
+                    leaks.append((x, sx))
+            if rec.term(x)["k"] == "return":
+                leaks.append((x, None))
+        ck.check(not leaks, rid, "recover_all_entries:no-early-exit" + _tag(cfg),
+                 "the loop over the WAL files can be left before all files were read (line %s): intact, fsynced entries of the files behind "
+                 "that point are not replayed" % (rec.term(leaks[0][0]).get("ln") if leaks else "?"), rec.where(),
+                 detail="the loop ends only on exhaustion of the file list")
